@@ -56,7 +56,7 @@ impl<'a> Model<'a> {
 
     fn evaluate(&mut self) {
         if let Some(tl) = &self.stint[self.cur] {
-            tl.update(&mut self.values, self.tau.as_secs_f32());
+            tl.update(&mut self.values, self.tau.as_secs_f64() as f32);
         }
     }
 
@@ -96,7 +96,7 @@ impl<'a> Model<'a> {
     pub fn is_ended_differential(&self) -> bool {
         match &self.stint[self.cur] {
             None => true,
-            Some(tl) => self.tau.as_secs_f32() >= tl.duration(),
+            Some(tl) => (self.tau.as_secs_f64() as f32) >= tl.duration(),
         }
     }
 
